@@ -49,11 +49,18 @@ def mergeW : List Ev → List Ev
 termination_by l => l.length
 
 /-- take the events of the last operation out of the state, canonicalised -/
+def isExch : Ev → Bool
+  | .exch .. | .exchClose .. => true
+  | _ => false
+
 def flush (s : S) : S × List String :=
   let evs := s.evs.reverse
   let inl := mergeW (evs.filter (!isLate ·))
+  -- while the application does not read its exchange channels, what they receive stays inside them
+  let held := if s.holdEx then s.heldEx ++ evs.filter isExch else []
+  let evs := if s.holdEx then evs.filter (!isExch ·) else evs
   let late := (evs.filter isLate).foldl (fun acc e => insertLate e acc) []
-  ({ s with evs := [] }, (inl ++ late).map evLine)
+  ({ s with evs := [], heldEx := held }, (inl ++ late).map evLine)
 
 def parseChunk (a : String) : Option (List Chunk) :=
   match a with
@@ -302,6 +309,10 @@ def sessStep (s : S) (f : List String) : S × List String :=
     match pol with
     | some x => done (s.release x) []
     | none => (s, ["bad-op wgo"])
+  | ["exhold"] => ({ s with holdEx := true }, [])
+  | ["exread"] =>
+    let late := s.heldEx.foldl (fun acc e => insertLate e acc) []
+    done { s with holdEx := false, heldEx := [] } (late.map evLine) false
   | ["counters"] => (s, [ctrLine s])
   | ["txn", n] => match n.toNat? with
     | some n => ({ s with txN := n }, [])
